@@ -3,7 +3,7 @@
 cd "$(dirname "$0")/.."
 for d in seeded/*/; do
   id=$(basename $d)
-  if git -C /repo apply --check $d/patch.diff 2>/dev/null; then
+  if git -C /repo apply --check "$(pwd)/$d/patch.diff" 2>/dev/null; then
     ./tools/try_seed.py $d 2>&1 | tail -1 | sed "s/^/$id: /"
   else
     echo "$id: patch no longer applies to /repo HEAD"
